@@ -36,8 +36,8 @@ PROPS = {
     "C06": dict(profiles=["alloc", "core"], level="proof", extra=["stamps", "genwrap"]),
     "C07": dict(profiles=["alloc", "core"], level="proof"),
     "C08": dict(profiles=["alloc", "core", "value"], level="proof"),
-    "C09": dict(profiles=["iters"], level="proof"),
-    "C10": dict(profiles=["iters"], level="proof"),
+    "C09": dict(profiles=["iters"], level="proof", props=["C09", "C09src"]),
+    "C10": dict(profiles=["iters"], level="proof", props=["C10", "C09src"]),
     "C11": dict(profiles=["core", "alloc"], level="proof", extra=["selfcheck", "genwrap"]),
     "C12": dict(extra=["enum"], profiles=["core", "alloc"], level="proof"),
     "C13": dict(profiles=["value", "core"], level="proof", extra=["selfcheck", "determinism"]),
@@ -155,38 +155,42 @@ def audit_sources():
 
 def run_coqchk(pid):
     """independent re-check of the compiled property file and everything it depends on (thorough tier)"""
-    rc, out = sh("timeout 2400 coqchk -silent -o -Q theories IT -Q proofs IT.proofs -Q props IT.props -Q gen IT.gen IT.props.%s" % pid, cwd=COQ, timeout=2500)
+    rc, out = sh("timeout 2400 coqchk -silent -o -Q theories IT -Q proofs IT.proofs -Q props IT.props -Q gen IT.gen %s" % " ".join("IT.props." + f for f in PROPS[pid].get("props", [pid])), cwd=COQ, timeout=2500)
     ok = (rc == 0 and "Axioms: <none>" in out and "type-in-type: <none>" in out
           and "unsafe (co)fixpoints: <none>" in out and "positivity is assumed: <none>" in out)
     return ok, out[-1200:]
 
 def check_proofs(pid):
-    """compile props/<ID>.v: its `Check (thm : statement)` pins and Print Assumptions."""
-    res = dict(file="coq/props/%s.v" % pid, obligations=0, discharged=0, theorems=[], assumptions=[], ok=False, log="")
-    path = os.path.join(COQ, "props", pid + ".v")
-    if not os.path.exists(path):
-        res["log"] = "no property file"
-        return res
-    src = open(path).read()
-    thms = re.findall(r"^\s*(?:Theorem|Corollary|Lemma)\s+(\w+)", src, re.M)
-    res["theorems"] = thms
-    res["obligations"] = len(thms)
-    rc, out = sh("timeout 600 coqc -q -Q theories IT -Q proofs IT.proofs -Q props IT.props -Q gen IT.gen props/%s.v" % pid, cwd=COQ, timeout=700)
-    res["log"] = out[-3000:]
-    if rc != 0:
-        return res
-    closed = out.count("Closed under the global context")
-    axioms = re.findall(r"Axioms:\s*\n((?:.+\n)+?)(?=\n|\Z)", out)
-    res["assumptions"] = ["Closed under the global context"] * closed + [a.strip() for a in axioms]
-    npa = len(re.findall(r"^\s*Print Assumptions\s+\w+", src, re.M))
-    if axioms:
-        res["log"] += "\nnon-closed assumptions: %r" % axioms
-        return res
-    if npa < len(thms) or closed < npa:
-        res["log"] += "\nPrint Assumptions missing for some theorem (%d theorems, %d Print Assumptions, %d closed)" % (len(thms), npa, closed)
-        return res
-    res["discharged"] = len(thms)
-    res["ok"] = True
+    """compile the property's theorem files (props/<ID>.v and, where listed, source-tie files): every
+    theorem must come with a closed Print Assumptions"""
+    files = PROPS[pid].get("props", [pid])
+    res = dict(file=", ".join("coq/props/%s.v" % f for f in files), obligations=0, discharged=0, theorems=[], assumptions=[], ok=True, log="")
+    for f in files:
+        path = os.path.join(COQ, "props", f + ".v")
+        if not os.path.exists(path):
+            res["ok"] = False; res["log"] += "no property file %s\n" % f
+            continue
+        src = open(path).read()
+        thms = re.findall(r"^\s*(?:Theorem|Corollary|Lemma)\s+(\w+)", src, re.M)
+        res["theorems"] += thms
+        res["obligations"] += len(thms)
+        rc, out = sh("timeout 600 coqc -q -Q theories IT -Q proofs IT.proofs -Q props IT.props -Q gen IT.gen props/%s.v" % f, cwd=COQ, timeout=700)
+        res["log"] += out[-2000:]
+        if rc != 0:
+            res["ok"] = False
+            continue
+        closed = out.count("Closed under the global context")
+        axioms = re.findall(r"Axioms:\s*\n((?:.+\n)+?)(?=\n|\Z)", out)
+        res["assumptions"] += ["Closed under the global context"] * closed + [a.strip() for a in axioms]
+        npa = len(re.findall(r"^\s*Print Assumptions\s+\w+", src, re.M))
+        if axioms:
+            res["ok"] = False; res["log"] += "\nnon-closed assumptions in %s: %r" % (f, axioms)
+            continue
+        if npa < len(thms) or closed < npa:
+            res["ok"] = False
+            res["log"] += "\nPrint Assumptions missing for some theorem of %s (%d theorems, %d Print Assumptions, %d closed)" % (f, len(thms), npa, closed)
+            continue
+        res["discharged"] += len(thms)
     return res
 
 # ------------------------------------------------------------------------------------------
@@ -426,6 +430,22 @@ def ensure_tools():
     _tools_ready = True
     return ok
 
+def extraction_crosscheck(wd, results):
+    """the kernel itself (vm_compute in coqc) re-evaluates [run] on the first histories of one debug and
+    one release batch and must reach the arenas the extracted OCaml code reached"""
+    n = 0
+    for build in ("debug", "release"):
+        r = next((r for r in results if r["build"] == build and r["profile"] in ("core", "alloc", "iters", "value", "print", "serde")), None)
+        if r is None: continue
+        vf = os.path.join(wd, "emit_%s.v" % build)
+        rc, out = sh([RUNNER, "--ops", r["ops"], "--emit-coq", vf, "--dbg", "1" if build == "debug" else "0"], timeout=300)
+        if rc != 0: raise ToolError("runner --emit-coq failed: " + out[-500:])
+        rc, out = sh("timeout 600 coqc -q -Q %s IT -o %s %s" % (os.path.join(COQ, "theories"), os.path.join(wd, "emit_%s.vo" % build), vf), cwd=wd, timeout=700)
+        if rc != 0:
+            raise ToolError("extraction cross-check failed: coqc's own evaluation of the model disagrees with the extracted runner (%s):\n%s" % (vf, out[-1500:]))
+        n += open(vf).read().count("Example emit_")
+    return n
+
 def plan(pid, tier, seed):
     spec = PROPS[pid]
     hists, length, nseeds = (1200, 40, 1) if tier == "quick" else (6000, 45, 6)
@@ -458,6 +478,7 @@ def check(pid, tier, seed):
             futs = [ex.submit(run_batch, pid, wd, bins[b], b, prof, s, h, ln) for (prof, b, s, h, ln) in batches]
             for f in futs: results.append(f.result())
         extra = vextra.run_extras(pid, tier, seed, wd, bins)
+        xcheck = extraction_crosscheck(wd, results)
     except ToolError as e:
         log("vcheck: tooling failure, no verdict for %s:\n%s" % (pid, e))
         return 2
@@ -471,7 +492,7 @@ def check(pid, tier, seed):
             (known_hits if k else mon_fail).append((r, m, k))
     diffs = [(r, d) for r in results for d in r["diffs"]]
     hangs = [r for r in results if r["hang"]]
-    proof_broken = (not proof["ok"]) and os.path.exists(os.path.join(COQ, "props", pid + ".v"))
+    proof_broken = not proof["ok"]
     if audit: proof_broken = True
 
     for (r, m, k) in known_hits[:5]:
@@ -553,6 +574,7 @@ def check(pid, tier, seed):
             violation = dict(kind="correspondence", header=hdr, ops=ops_l, nofail=True)
 
     wall = time.time() - t0
+    extra.setdefault("summary", {})["extraction_crosscheck"] = "%d histories re-evaluated by coqc (vm_compute) and compared with the extracted runner's final arenas" % xcheck
     write_evidence(pid, tier, seed, proof, audit, results, extra, wall, 1 if violation else 0, coq_ok)
     if violation:
         path = write_replay(pid, violation["header"], violation["ops"])
